@@ -63,6 +63,13 @@ def SpecMsg.valid (m : SpecMsg) : Bool :=
     && m.fields.all Field.wf && decide ((Spec.fieldArray m).length ≤ Spec.maxArray)
     && decide ((Spec.encodeMsg m).length ≤ Spec.maxMessage)
 
+/-- The messages `Spec.encodeMsg` lays out faithfully (every number fits its field); weaker than `valid`:
+no limit on the message type, on the serial being non-zero, or on the 2^26 / 2^27 size limits. -/
+def SpecMsg.encodable (m : SpecMsg) : Bool :=
+  decide (m.mtype < 256) && decide (m.flags < 256) && decide (m.serial < 4294967296)
+    && decide (m.body.length < 4294967296) && decide ((Spec.fieldArray m).length < 4294967296)
+    && m.fields.all Field.wf
+
 namespace Spec
 
 /-- Strict decoder of a whole message. -/
